@@ -400,9 +400,9 @@ type c19XMLWant struct {
 // c19XMLNode renders one XML node whose kind is chosen symbolically and records the URLs planted in attributes and
 // text nodes. The real encoding/xml tokenizer reads the rendered bytes (from SSA in the symbolic run).
 func c19XMLNode(depth int, name string, want *[]c19XMLWant) string {
-	kinds := 7
+	kinds := 9
 	if depth == 0 {
-		kinds = 6
+		kinds = 8
 	}
 	switch verifrt.Choice("kind_"+name, kinds) {
 	case 0: // URL with an extension in an attribute, self-closing element
@@ -422,6 +422,12 @@ func c19XMLNode(depth int, name string, want *[]c19XMLWant) string {
 	case 5: // two attributes of one element, namespace prefix
 		*want = append(*want, c19XMLWant{"https://i.j/thumb.jpg", true}, c19XMLWant{"http://k.l/watch", false})
 		return `<media:content thumb="https://i.j/thumb.jpg" rel="x" href="http://k.l/watch"></media:content>`
+	case 6: // mixed content: the URL is the text that FOLLOWS a child element
+		*want = append(*want, c19XMLWant{"https://m.n/tail", false})
+		return `<entry><id>42</id>https://m.n/tail</entry>`
+	case 7: // ... or follows a self-closing element
+		*want = append(*want, c19XMLWant{"http://o.p/after-br.mp4", true})
+		return `<p>first line<br/>http://o.p/after-br.mp4</p>`
 	default: // container with up to two children
 		s := "<item>"
 		n := 1 + verifrt.Choice("len_"+name, 2)
@@ -432,7 +438,7 @@ func c19XMLNode(depth int, name string, want *[]c19XMLWant) string {
 	}
 }
 
-// VerifH_C19_xml: every absolute http(s) URL in an attribute or a text node of an XML document is discovered; URLs
+// VerifH_C19_xml: every absolute http(s) URL in an attribute or a text node (leading, or following a child element) of an XML document is discovered; URLs
 // whose last path segment has a file extension are assets, the others outlinks.
 func VerifH_C19_xml() {
 	var want []c19XMLWant
